@@ -1,17 +1,40 @@
 import Rooc.Wire
 import Rooc.Oracle
 import Rooc.Syntax.Format
+import Rooc.Syntax.FormatToks
 import Rooc.Syntax.Wire
 import Rooc.Syntax.Parse
 import Rooc.Syntax.Ref
 namespace Rooc.Drv.C11
 open Rooc Sexp Rooc.Syntax
 
+/-- every expression slot of a program (objective, constraint sides, iterators, constants, domain bounds) -/
+def exprSlots (m : PModel) : List PExp :=
+  [m.objective]
+    ++ m.constraints.flatMap (fun c => [c.lhs, c.rhs] ++ c.iters)
+    ++ m.constants.map (·.2)
+    ++ m.domains.flatMap (fun d =>
+        (match d.ty with
+         | .boolean => []
+         | .nonNegReal a b | .real a b => a.toList ++ b.toList
+         | .intRange a b => [a, b]) ++ d.iters)
+
+/-- link between the text printer and its token twin (the object of the C11 theorems): on the
+expression sub-language, lexing `fmtExp e` gives exactly `fmtToks e`. Checked on every case. -/
+def linkOk (e : PExp) : Bool :=
+  !(coreExp e) ||
+    (match lex (fmtExp e).toList with
+     | .ok ts => ts == fmtToks e
+     | .unsupported => false)
+
 /-- model requests for C11: `(format <premodel>)` → the text `RoocParser::format` prints for that `PreModel`. -/
 def handle (α : Type) [Arith α] [Wire α] : List Sexp → Sexp
   | [.atom "format", m] =>
     match PModel.dec m with
-    | some m => app "ok" [.str m.text]
+    | some m =>
+      match (exprSlots m).find? (fun e => !(linkOk e)) with
+      | some e => app "err" [.atom "printer-token-link-broken", .str (fmtExp e)]
+      | none => app "ok" [.str m.text]
     | none => app "err" [.atom "decode"]
   | _ => app "err" [.atom "bad-request"]
 
